@@ -335,6 +335,28 @@ def rule_stop_protocol(ctx, crate, g, rule="R-STOP-PROTOCOL"):
                           "after being notified to stop the thread keeps ticking", cfg)
 
 
+def _running_edges(crate, b):
+    """Edges (switch block, target) of `b` taken exactly when `Ticker::is_running()` (a call whose callee asks the thread's
+    JoinHandle) answered true for the ticker in the locked slot: the switch tests the call's result itself."""
+    out = []
+    for sb, t in b.switches():
+        l = operand_local(t["op"])
+        if l is None or t["op"]["place"]["p"] or b.locals[l]["ty"] != "bool":
+            continue
+        ds = [d for d in b.defs().get(l, ()) if d["kind"] in ("assign", "call")]
+        if len(ds) != 1 or ds[0]["kind"] != "call":
+            continue
+        sl = b.slice_switch(sb)
+        if not K.deep_has_call(crate, sl, r"std::thread::JoinHandle::<T>::is_finished"):
+            continue
+        if not any(T_CLASS in (x.callee.get("targs") or [""])[0] for x in sl.calls if x.matches(*L.ACQUIRE)):
+            continue
+        zero = [tb for v, tb in t["targets"] if v == 0]
+        if zero and zero[0] != t["otherwise"]:
+            out.append((sb, t["otherwise"]))
+    return out
+
+
 def rule_manual_tick_gated(ctx, crate, rule="R-MANUAL-TICK-GATED"):
     cfg = crate.config
     ti = K.find_one(ctx, crate, rule, r"progress_bar::ProgressBar::tick_inner")
@@ -357,6 +379,12 @@ def rule_manual_tick_gated(ctx, crate, rule="R-MANUAL-TICK-GATED"):
                     return locks_slot(sl) and K.deep_has_call(crate, sl, r"std::thread::JoinHandle::<T>::is_finished") and \
                         not sl.has_call(r"std::option::Option::<T>::is_none")
                 g = K.guarded_by_false_of(ti, c.bb, live_pred) or K.guarded_by_true_of(ti, c.bb, lambda sl: live_pred(sl) and bool([a for a in sl.atoms if a[0] == "unop"]))
+            if g is None:
+                # .. or the answer travels as a locally built verdict (`match self.ticker_status() { Running => {}, Idle => tick }`):
+                # on every path through the "thread is running" edge the verdict folds and the tick is unreachable
+                run_edges = _running_edges(crate, ti)
+                if run_edges and all(c.bb not in K.reach_through_edge(ti, e, crate) for e in run_edges):
+                    g = run_edges[0]
             ctx.check(g is not None, rule, "tick_inner", ti.name, c.loc(), "manual tick only when no ticker is installed (slot.is_none())",
                       "manual ticks advance the spinner although a steady ticker is installed", cfg)
             # ... and "installed" has to mean "its thread runs": the thread leaves its loop when the bar is finished, the bar can be
@@ -365,7 +393,7 @@ def rule_manual_tick_gated(ctx, crate, rule="R-MANUAL-TICK-GATED"):
             rn_ = crate.body("progress_bar::TickerControl::run")
             thread_can_exit_alive = bool(rn_ and rn_.calls(r"state::ProgressState::is_finished"))
             if thread_can_exit_alive:
-                sls = [ti.slice_switch(sb) for sb, t in ti.switches() if any(ti.edge_dominates((sb, x), c.bb) for x in ti.succ(sb))]
+                sls = [sl_ for sb, t in ti.switches() if any(ti.edge_dominates((sb, x), c.bb) for x in ti.succ(sb)) for sl_ in K.cond_slices(ti, sb)]
                 live = any(K.deep_has_call(crate, sl, r"std::thread::JoinHandle::<T>::is_finished") for sl in sls)
                 ctx.check(live, rule, "gate-means-thread-runs", ti.name, c.loc(),
                           "the gate suppresses manual ticks only while the ticker's thread is running",
@@ -377,6 +405,13 @@ def rule_manual_tick_gated(ctx, crate, rule="R-MANUAL-TICK-GATED"):
             sl = up.slice_args(c, [3])
             ok = (sl.has_call(r"std::option::Option::<T>::is_none") or K.deep_has_call(crate, sl, r"std::thread::JoinHandle::<T>::is_finished")) and \
                 sl.has_field("ticker", "progress_bar::ProgressBar")
+            if not ok and len(c.args) > 3 and operand_local(c.args[3]) is not None and not c.args[3]["place"]["p"]:
+                # the flag is chosen by a locally built verdict: on the paths through the "thread is running" edge it is `false`
+                run_edges = _running_edges(crate, up)
+                ok = bool(run_edges) and all(
+                    c.bb not in R_ or K._bool_vals(up, operand_local(c.args[3]), c.bb, R_, 0) == {False}
+                    for R_ in (K.reach_through_edge(up, e, crate) for e in run_edges)) and \
+                    any(sl_.has_field("ticker", "progress_bar::ProgressBar") for sb_, e_ in run_edges for sl_ in [up.slice_switch(sb_)])
             ctx.check(ok, rule, "update-flag", up.name, c.loc(), "update() passes tick = ticker_slot.is_none()", "update() ticks regardless of the steady ticker", cfg)
     bu = K.find_one(ctx, crate, rule, r"state::BarState::update")
     if bu:
